@@ -314,6 +314,41 @@ theorem update_inv {a b : Nat} {h : List (Nat × Nat)} (hf : Forest ((a, b) :: h
       · exact hvu e
       · exact hnv e
 
+/-- every call of `_update` conses exactly one entry (the refreshed node) onto the visited list, and
+only for an unvisited node: the visited list stays duplicate-free, i.e. each node is refreshed at
+most once per `link` (holds for every graph, not only forests) -/
+theorem update_nodup : ∀ (fuel : Nat) (g : Graph) (vis : List Nat) (u : Nat) (g' : Graph) (vis' : List Nat),
+    update fuel g vis u = some (g', vis') → u ∉ vis → vis.Nodup → vis'.Nodup := by
+  intro fuel
+  induction fuel with
+  | zero => intro g vis u g' vis' hu; simp [update] at hu
+  | succ fuel ih =>
+    intro g vis u g' vis' hu hnv hnd
+    rw [update_succ] at hu
+    have key : ∀ (l : List Nat) (g1 : Graph) (vis1 : List Nat) (g' : Graph) (vis' : List Nat),
+        l.foldl (updStep fuel) (some (g1, vis1)) = some (g', vis') → vis1.Nodup → vis'.Nodup := by
+      intro l
+      induction l with
+      | nil =>
+        intro g1 vis1 g' vis' hfold h1
+        simp only [List.foldl_nil, Option.some.injEq, Prod.mk.injEq] at hfold
+        obtain ⟨rfl, rfl⟩ := hfold
+        exact h1
+      | cons d rest ihl =>
+        intro g1 vis1 g' vis' hfold h1
+        simp only [List.foldl_cons] at hfold
+        by_cases hd : d ∈ vis1
+        · rw [updStep_some_mem hd] at hfold
+          exact ihl g1 vis1 g' vis' hfold h1
+        · rw [updStep_some_not_mem hd] at hfold
+          cases hup : update fuel g1 vis1 d with
+          | none => rw [hup, foldl_updStep_none] at hfold; cases hfold
+          | some p =>
+            obtain ⟨g2, vis2⟩ := p
+            rw [hup] at hfold
+            exact ihl g2 vis2 g' vis' hfold (ih g1 vis1 d g2 vis2 hup hd h1)
+    exact key _ _ _ g' vis' hu (List.nodup_cons.mpr ⟨hnv, hnd⟩)
+
 /-! ### enough fuel -/
 
 /-- number of (occurrences of) nodes of `nodes` not yet visited -/
